@@ -136,6 +136,8 @@ def replay_case(case):
         return [(a + f"|msgmode={case['mode']}|parsebitfield={case['pbf']}", b) for a, b in judge(bytes.fromhex(case["x"]), case["mode"], case["pbf"])[2]]
     if case["kind"] == "valnone" and "pbf" in case:
         return [(a + f"|msgmode={case['mode']}|parsebitfield={case['pbf']}", b) for a, b in judge_valnone(bytes.fromhex(case["frame"]), bytes.fromhex(case["ck"]), case["mode"], case["pbf"])[1]]
+    if case["kind"] == "fault" and case.get("fault") == "fills":
+        return [(a + "|uniform_fill", b) for a, b in judge(bytes.fromhex(case["x"]), 0)[2]]
     if case["kind"] == "fault":
         out = judge(bytes.fromhex(case["x"]), case.get("mode", 0))[2]
         return [(a + "|sealed_with_library_checksum", b) for a, b in out] if case.get("fault") == "sealed" else out
@@ -278,6 +280,20 @@ def eval_block(block, acc):
                         acc.outcomes[("extreme", wf, ret.split(":")[0])] += 1
                         for key, detail in out:
                             acc.violation(key + "|max_length_frame", {"kind": "extreme", "n": n, "k": k, "d": d, "paired": xx == bytes(x)}, detail)
+    elif kind == "fills":
+        # uniform payloads (erased-flash ff, fe, 80, 7f, 00) of EVERY length in a range: the intact frame and all
+        # 510 single-byte corruptions of its checksum (running sums at their largest for the ff fill)
+        _, fill, cid, lo, hi = block[:5]
+        for n in range(lo, hi):
+            frame = ref.frame(cid[0], cid[1], bytes((fill,)) * n)
+            for ck in [frame[-2:]] + single_byte_cks(frame):
+                x = frame[:-2] + ck
+                wf, ret, out = judge(x, 0)
+                acc.evaluations += 1
+                acc.transitions += 1
+                acc.outcomes[("fills", wf, ret.split(":")[0])] += 1
+                for key, detail in out:
+                    acc.violation(key + "|uniform_fill", {"kind": "fault", "x": x.hex(), "mode": 0, "fault": "fills"}, detail)
     elif kind == "zero":
         cls = block[1]
         for mid in range(256):
@@ -309,6 +325,8 @@ def run_tier(tier, t0):
     blocks.append(("wrap", q))
     for t in ("U0", "Uack") if q else ("U0", "Uack", "Ucfg"):
         blocks += [("double", t, i, q) for i in range(len(streams.TOKENS[t][2]) - 1)]
+    FH = 160 if q else 640
+    blocks += [("fills", f, cid, lo, min(lo + 40, FH), q) for f in (0xFF, 0xFE, 0x80, 0x7F, 0x00) for cid in ((0x99, 0x01), (0x04, 0x02)) for lo in range(0, FH, 40)]
     blocks += [("zero", cls, q) for cls in range(256)]
     LB = 7 if q else 9
     blocks += [("bytes", list(p), LB, q) for p in itertools.product(range(8), repeat=2)]
@@ -322,7 +340,7 @@ def run_tier(tier, t0):
             f"{[hex(x) for x in SIGMA_P]}; VALNONE clause with {'all 510 single-byte' if q else 'single-byte and lattice / all 65,535 (tokens)'} checksum corruptions. "
             "distinct_nontrivial = distinct (fault kind, well-formed?, verdict) classes"
         ),
-        assumptions=["well-formedness = reference framing + independent Fletcher (mc/refmodel/core.py)", "extra families: maximum-length frames (65,531..65,535-byte payloads) with checksum-neutral corruptions and frames sealed with the library's own checksum helper; insertion bursts of 1 and 2 x 65,536 bytes with a correct checksum (payload longer than its length field by a multiple of 2^16); fault classes also under (msgmode, parsebitfield) = (3,0),(3,1),(1,0),(0,0)"],
+        assumptions=["well-formedness = reference framing + independent Fletcher (mc/refmodel/core.py)", f"extra families: uniform payloads (ff, fe, 80, 7f, 00) of every length 0..{FH - 1} x 2 class/IDs x (intact + all 510 single-byte checksum corruptions); maximum-length frames (65,531..65,535-byte payloads) with checksum-neutral corruptions and frames sealed with the library's own checksum helper; insertion bursts of 1 and 2 x 65,536 bytes with a correct checksum (payload longer than its length field by a multiple of 2^16); fault classes also under (msgmode, parsebitfield) = (3,0),(3,1),(1,0),(0,0)"],
         vacuity=[
             ("some faulted inputs were themselves well-formed and accepted", any(k[1] is True and k[2] == "returned" for k in acc.outcomes if len(k) == 3)),
             ("malformed inputs rejected with UBXParseError", any(k[1] is False and k[2] == "parse-error" for k in acc.outcomes if len(k) == 3)),
